@@ -22,8 +22,8 @@ ASSUME = [
     "counts are taken after the feeder thread, which is told to stop but not joined in the creating process, has ended",
 ]
 ALL = ["plain", "with", "nowait", "kill", "broken_exit", "broken_kill", "timeout", "gc", "never_started", "errors",
-       "reusable_resize", "reusable_broken", "reusable_timeout", "nested", "nested_kill", "kill_bigargs", "broken_bigargs"]
-QUICK = ["plain", "nowait", "kill", "kill_bigargs", "broken_bigargs", "nested_kill", "broken_exit", "gc", "never_started", "reusable_resize", "reusable_broken"]
+       "reusable_resize", "reusable_broken", "reusable_timeout", "nested", "nested_kill", "kill_bigargs", "broken_bigargs", "bad_initargs"]
+QUICK = ["plain", "nowait", "kill", "kill_bigargs", "broken_bigargs", "bad_initargs", "nested_kill", "broken_exit", "gc", "never_started", "reusable_resize", "reusable_broken"]
 
 
 def model_ledgers(hists, psutil):
